@@ -50,6 +50,8 @@ type FuncExec struct {
 	counts  map[string]int
 	discard int
 	writeLog map[string]bool
+	writeTargets map[string]map[string]bool
+	discN1 int
 	cellLog  map[ssa.Value]bool
 	heapInfos map[string]*heapInfo
 	universeFrozen bool
@@ -227,7 +229,12 @@ func (fx *FuncExec) computeCFG() {
 				}
 			}
 			if !found {
-				panic(toolLimit("contract of %s names loop %q but the function has %d loops", fx.relName(), name, len(heads)))
+				// invariants and variants are proof aids: if the loop they helped with is gone they are
+				// moot. Step contracts carry the property: without their loop the check is undecided.
+				if len(fx.fc.Loops[name].Steps) > 0 {
+					panic(toolLimit("contract of %s has step contracts for loop %q but the function has %d loops", fx.relName(), name, len(heads)))
+				}
+				fx.note(fmt.Sprintf("stale contract clauses ignored: loop %q of %s no longer exists", name, fx.relName()))
 			}
 		}
 	}
@@ -286,7 +293,7 @@ func (fx *FuncExec) runBody() {
 			fx.modelTerms["len("+p.Name()+")"] = "(s.len " + name + ")"
 		}
 		if s == SStr {
-			fx.modelTerms["len("+p.Name()+")"] = "(str.len " + name + ")"
+			fx.modelTerms["len("+p.Name()+")"] = "(gs.len " + name + ")"
 		}
 	}
 	for _, fv := range fn.FreeVars {
@@ -377,33 +384,59 @@ func (fx *FuncExec) loopHead(li *loopInfo, pre *State) *State {
 	}
 	if li.spec != nil {
 		env := fx.specEnv(pre, fx.entry)
+		env.loop = li
 		for _, inv := range li.spec.Invariants {
 			fx.oblige("inv-init", pre, fx.evalBool(env, inv), fmt.Sprintf("loop %s invariant holds on entry: %s", li.name, inv.Text), pos)
 		}
 	}
-	// discovery of the write set
-	savedW, savedC := fx.writeLog, fx.cellLog
-	fx.writeLog, fx.cellLog = map[string]bool{}, map[ssa.Value]bool{}
-	fx.discard++
+	// ---- the loop frame -----------------------------------------------------------------------------
+	// Phase 1 (discard mode): which cells and heap keys does the body write at all?
+	wl1, _, cl := fx.discoverLoop(li, pre.Clone(), false)
 	snap := len(fx.em.lines)
-	savedEdges := fx.edgeOut
-	fx.edgeOut = map[[2]int]incoming{}
-	savedOrd := map[string]int{}
-	for k, v := range fx.callOrd {
-		savedOrd[k] = v
+	n1 := fx.em.n
+	// Phase 2 (discard mode): run the body again from a state in which everything written is
+	// arbitrary, logging the *location* of every heap write. A location whose term only depends on
+	// symbols that existed before the loop is the same location in every iteration.
+	cons := fx.havocForLoop(li, pre, wl1, cl, nil, n1)
+	savedN1 := fx.discN1
+	fx.discN1 = n1
+	wl2, wt, cl2 := fx.discoverLoop(li, cons, true)
+	fx.discN1 = savedN1
+	for k := range wl2 {
+		wl1[k] = true
 	}
-	su, sl := fx.unlockOrd, fx.lockOrd
-	fx.execBlocks(fx.rpo, li.blocks, li.head, pre.Clone())
-	fx.unlockOrd, fx.lockOrd = su, sl
-	fx.callOrd = savedOrd
-	fx.edgeOut = savedEdges
+	for c := range cl2 {
+		cl[c] = true
+	}
+	stable := map[string][]string{}
+	for k, ts := range wt {
+		if wl1[k] && wl2[k] {
+			continue // some write of unknown location
+		}
+		ok := true
+		var out []string
+		var names []string
+		for t := range ts {
+			names = append(names, t)
+		}
+		sort.Strings(names)
+		for _, t := range names {
+			x, good := fx.em.expandStable(t, n1)
+			if !good {
+				ok = false
+				break
+			}
+			out = append(out, x)
+		}
+		if ok && !wl2[k] {
+			stable[k] = out
+			wl1[k] = true
+		}
+	}
 	fx.em.lines = fx.em.lines[:snap]
-	fx.discard--
-	wl, cl := fx.writeLog, fx.cellLog
-	fx.writeLog, fx.cellLog = savedW, savedC
 	if fx.writeLog != nil {
-		for k := range wl {
-			fx.writeLog[k] = true
+		for k := range wl1 {
+			fx.writeLog[k] = true // an enclosing loop sees this loop's writes as location-unknown
 		}
 	}
 	if fx.cellLog != nil {
@@ -411,43 +444,10 @@ func (fx *FuncExec) loopHead(li *loopInfo, pre *State) *State {
 			fx.cellLog[k] = true
 		}
 	}
-	st := pre.Clone()
-	var cells []ssa.Value
-	for c := range cl {
-		cells = append(cells, c)
-	}
-	sort.Slice(cells, func(i, j int) bool { return cells[i].Name() < cells[j].Name() })
-	for _, c := range cells {
-		old, ok := pre.cells[c]
-		if !ok {
-			continue
-		}
-		if old.S == "" {
-			delete(st.cells, c)
-			continue
-		}
-		nv := Val{T: old.T, Sort: old.Sort, S: fx.em.Fresh("loop"+li.name+":"+cellName(c), old.Sort)}
-		fx.typeFacts(nv)
-		if a, ok := c.(*ssa.Alloc); ok && a.Comment == "rangeindex" {
-			fx.em.Assert(fmt.Sprintf("(>= %s (- 1))", nv.S))
-		}
-		st.cells[c] = nv
-	}
-	var keys []string
-	for k := range wl {
-		keys = append(keys, k)
-	}
-	sort.Strings(keys)
-	for _, k := range keys {
-		hi := fx.heapInfos[k]
-		nh := fx.em.FreshRaw("loop"+li.name+":"+k, hi.sortText)
-		if k == topKey {
-			fx.em.Assert(fmt.Sprintf("(>= %s %s)", nh, pre.heaps[k]))
-		}
-		st.heaps[k] = nh
-	}
+	st := fx.havocForLoop(li, pre, wl1, cl, stable, n1)
 	if li.spec != nil {
 		env := fx.specEnv(st, fx.entry)
+		env.loop = li
 		for _, inv := range li.spec.Invariants {
 			fx.assume(st, fx.evalBool(env, inv))
 		}
@@ -478,16 +478,19 @@ func (fx *FuncExec) backEdge(li *loopInfo, st *State) {
 		return
 	}
 	env := fx.specEnv(st, fx.entry)
+	env.loop = li
 	for _, inv := range li.spec.Invariants {
 		fx.oblige("inv-keep", st, fx.evalBool(env, inv), fmt.Sprintf("loop %s invariant preserved: %s", li.name, inv.Text), pos)
 	}
 	envStep := fx.specEnv(st, li.old)
+	envStep.loop = li
 	envStep.oldCells = li.old
 	for _, sc := range li.spec.Steps {
 		fx.oblige("step", st, fx.evalBool(envStep, sc), fmt.Sprintf("loop %s step contract: %s", li.name, sc.Text), pos)
 	}
 	if d := li.spec.Decreases; d != nil {
 		envOld := fx.specEnv(li.old, fx.entry)
+		envOld.loop = li
 		v0 := fx.evalSpec(envOld, d.Expr)
 		v1 := fx.evalSpec(env, d.Expr)
 		fx.oblige("decreases", st, and(fmt.Sprintf("(<= 0 %s)", v0.S), fmt.Sprintf("(< %s %s)", v1.S, v0.S)),
@@ -612,7 +615,13 @@ func (fx *FuncExec) execInstr(st *State, in ssa.Instruction) {
 	case *ssa.IndexAddr:
 		fx.execIndexAddr(st, x)
 	case *ssa.Index:
-		panic(toolLimit("array value indexing"))
+		base := fx.val(st, x.X)
+		idx := fx.val(st, x.Index)
+		if base.Sort != SStr {
+			panic(toolLimit("array value indexing"))
+		}
+		fx.oblige("index", st, and(fmt.Sprintf("(<= 0 %s)", idx.S), fmt.Sprintf("(< %s (gs.len %s))", idx.S, base.S)), "string index out of range", x.Pos())
+		fx.def(x, Val{T: x.Type(), Sort: SInt, S: fmt.Sprintf("(gs.at %s %s)", base.S, idx.S)})
 	case *ssa.Lookup:
 		fx.execLookup(st, x)
 	case *ssa.Slice:
@@ -626,7 +635,7 @@ func (fx *FuncExec) execInstr(st *State, in ssa.Instruction) {
 		key := elemKey(el)
 		h := fx.heapTerm(st, key, arr2Sort(es), el)
 		st.heaps[key] = fx.em.DefineRaw(key, arr2Sort(es), sto(h, arr, fmt.Sprintf("((as const %s) %s)", arrSort(es), fx.em.Zero(el))))
-		fx.logWrite(key)
+		fx.logWriteAt(key, arr)
 		fx.def(x, Val{T: x.Type(), Sort: SSlice, S: fmt.Sprintf("(mkSlice %s 0 %s %s)", arr, ln.S, cp.S)})
 	case *ssa.MakeMap:
 		r := fx.NewRef(st, "map")
@@ -635,7 +644,7 @@ func (fx *FuncExec) execInstr(st *State, in ssa.Instruction) {
 		ks := fx.em.SortOf(m.Key())
 		h := fx.heapTerm(st, dk, fmt.Sprintf("(Array Int (Array %s Bool))", ks), m)
 		st.heaps[dk] = fx.em.DefineRaw(dk, fx.heapInfos[dk].sortText, sto(h, r, fmt.Sprintf("((as const (Array %s Bool)) false)", ks)))
-		fx.logWrite(dk)
+		fx.logWriteAt(dk, r)
 		fx.assume(st, eq("(map.len "+r+")", "0"))
 		fx.def(x, Val{T: x.Type(), Sort: SInt, S: r})
 	case *ssa.MakeChan:
@@ -749,7 +758,7 @@ func (fx *FuncExec) execAlloc(st *State, a *ssa.Alloc) {
 			key, h := fx.fieldHeap(st, el, u, i)
 			fs := fx.em.SortOf(u.Field(i).Type())
 			st.heaps[key] = fx.em.DefineRaw(key, arrSort(fs), sto(h, r, fx.em.Zero(u.Field(i).Type())))
-			fx.logWrite(key)
+			fx.logWriteAt(key, r)
 		}
 		fx.vals[a] = Val{T: a.Type(), S: r, Sort: SInt}
 		return
@@ -759,7 +768,7 @@ func (fx *FuncExec) execAlloc(st *State, a *ssa.Alloc) {
 		key := elemKey(u.Elem())
 		h := fx.heapTerm(st, key, arr2Sort(es), u.Elem())
 		st.heaps[key] = fx.em.DefineRaw(key, arr2Sort(es), sto(h, arr, fmt.Sprintf("((as const %s) %s)", arrSort(es), fx.em.Zero(u.Elem()))))
-		fx.logWrite(key)
+		fx.logWriteAt(key, arr)
 		fx.vals[a] = Val{T: a.Type(), S: arr, Sort: SInt}
 		return
 	}
@@ -868,8 +877,8 @@ func (fx *FuncExec) execLookup(st *State, x *ssa.Lookup) {
 	base := fx.val(st, x.X)
 	idx := fx.val(st, x.Index)
 	if base.Sort == SStr {
-		fx.oblige("index", st, and(fmt.Sprintf("(<= 0 %s)", idx.S), fmt.Sprintf("(< %s (str.len %s))", idx.S, base.S)), "string index out of range", x.Pos())
-		fx.def(x, Val{T: x.Type(), Sort: SInt, S: fmt.Sprintf("(str.at %s %s)", base.S, idx.S)})
+		fx.oblige("index", st, and(fmt.Sprintf("(<= 0 %s)", idx.S), fmt.Sprintf("(< %s (gs.len %s))", idx.S, base.S)), "string index out of range", x.Pos())
+		fx.def(x, Val{T: x.Type(), Sort: SInt, S: fmt.Sprintf("(gs.at %s %s)", base.S, idx.S)})
 		return
 	}
 	m := x.X.Type().Underlying().(*types.Map)
@@ -903,8 +912,8 @@ func (fx *FuncExec) execMapUpdate(st *State, x *ssa.MapUpdate) {
 	fx.checkGuardMap(st, x.Map, x.Pos())
 	st.heaps[dk] = fx.em.DefineRaw(dk, fx.heapInfos[dk].sortText, sto(dh, base.S, sto(sel(dh, base.S), k.S, "true")))
 	st.heaps[vk] = fx.em.DefineRaw(vk, fx.heapInfos[vk].sortText, sto(vh, base.S, sto(sel(vh, base.S), k.S, v.S)))
-	fx.logWrite(dk)
-	fx.logWrite(vk)
+	fx.logWriteAt(dk, base.S)
+	fx.logWriteAt(vk, base.S)
 }
 
 func (fx *FuncExec) execSlice(st *State, x *ssa.Slice) {
@@ -920,11 +929,11 @@ func (fx *FuncExec) execSlice(st *State, x *ssa.Slice) {
 		if x.High != nil {
 			hi = fx.val(st, x.High).S
 		} else {
-			hi = "(str.len " + base.S + ")"
+			hi = "(gs.len " + base.S + ")"
 		}
-		fx.oblige("slice", st, and(fmt.Sprintf("(<= 0 %s)", lo), fmt.Sprintf("(<= %s %s)", lo, hi), fmt.Sprintf("(<= %s (str.len %s))", hi, base.S)),
+		fx.oblige("slice", st, and(fmt.Sprintf("(<= 0 %s)", lo), fmt.Sprintf("(<= %s %s)", lo, hi), fmt.Sprintf("(<= %s (gs.len %s))", hi, base.S)),
 			"string slice bounds out of range", x.Pos())
-		fx.def(x, Val{T: x.Type(), Sort: SStr, S: fmt.Sprintf("(str.sub %s %s %s)", base.S, lo, hi)})
+		fx.def(x, Val{T: x.Type(), Sort: SStr, S: fmt.Sprintf("(gs.sub %s %s %s)", base.S, lo, hi)})
 	case *types.Slice:
 		if x.High != nil {
 			hi = fx.val(st, x.High).S
@@ -1005,8 +1014,8 @@ func (fx *FuncExec) execNext(st *State, x *ssa.Next) {
 	if x.IsString {
 		k := Val{T: tup.At(1).Type(), Sort: SInt, S: fx.em.Fresh("next.k", SInt)}
 		r := Val{T: tup.At(2).Type(), Sort: SInt, S: fx.em.Fresh("next.rune", SInt)}
-		fx.assume(st, imp(ok.S, and(fmt.Sprintf("(<= 0 %s)", k.S), fmt.Sprintf("(< %s (str.len %s))", k.S, it.S), fmt.Sprintf("(<= 0 %s)", r.S), fmt.Sprintf("(<= %s 1114111)", r.S))))
-		fx.assume(st, imp(and(ok.S, fmt.Sprintf("(< %s 128)", r.S)), eq(r.S, fmt.Sprintf("(str.at %s %s)", it.S, k.S))))
+		fx.assume(st, imp(ok.S, and(fmt.Sprintf("(<= 0 %s)", k.S), fmt.Sprintf("(< %s (gs.len %s))", k.S, it.S), fmt.Sprintf("(<= 0 %s)", r.S), fmt.Sprintf("(<= %s 1114111)", r.S))))
+		fx.assume(st, imp(and(ok.S, fmt.Sprintf("(< %s 128)", r.S)), eq(r.S, fmt.Sprintf("(gs.at %s %s)", it.S, k.S))))
 		fx.vals[x] = Val{T: x.Type(), Tup: []Val{ok, k, r}}
 		return
 	}
@@ -1064,16 +1073,16 @@ func (fx *FuncExec) execConvert(st *State, x *ssa.Convert) {
 		inner := fx.em.FreshRaw("conv.arr", arrSort(es))
 		n := fx.em.Fresh("conv.len", SInt)
 		if eb, ok := el.Underlying().(*types.Basic); ok && eb.Kind() == types.Uint8 {
-			fx.em.Assert(eq(n, "(str.len "+v.S+")"))
-			fx.em.Assert(fmt.Sprintf("(forall ((i Int)) (! (=> (and (<= 0 i) (< i %s)) (= (select %s i) (str.at %s i))) :pattern ((select %s i))))", n, inner, v.S, inner))
+			fx.em.Assert(eq(n, "(gs.len "+v.S+")"))
+			fx.em.Assert(fmt.Sprintf("(forall ((i Int)) (! (=> (and (<= 0 i) (< i %s)) (= (select %s i) (gs.at %s i))) :pattern ((select %s i))))", n, inner, v.S, inner))
 		} else {
-			fx.em.Assert(and(fmt.Sprintf("(<= 0 %s)", n), fmt.Sprintf("(<= %s (str.len %s))", n, v.S)))
-			fx.em.Assert(imp(eq("(str.len "+v.S+")", "0"), eq(n, "0")))
-			fx.em.Assert(imp(fmt.Sprintf("(> (str.len %s) 0)", v.S), fmt.Sprintf("(> %s 0)", n)))
+			fx.em.Assert(and(fmt.Sprintf("(<= 0 %s)", n), fmt.Sprintf("(<= %s (gs.len %s))", n, v.S)))
+			fx.em.Assert(imp(eq("(gs.len "+v.S+")", "0"), eq(n, "0")))
+			fx.em.Assert(imp(fmt.Sprintf("(> (gs.len %s) 0)", v.S), fmt.Sprintf("(> %s 0)", n)))
 			fx.note("[]rune(string): rune count is between 1 and the byte length for non-empty strings; rune values are not related to bytes")
 		}
 		st.heaps[key] = fx.em.DefineRaw(key, arr2Sort(es), sto(h, arr, inner))
-		fx.logWrite(key)
+		fx.logWriteAt(key, arr)
 		fx.def(x, Val{T: x.Type(), Sort: SSlice, S: fmt.Sprintf("(mkSlice %s 0 %s %s)", arr, n, n)})
 	case fs == SSlice && ts == SStr:
 		el := from.(*types.Slice).Elem()
@@ -1082,18 +1091,18 @@ func (fx *FuncExec) execConvert(st *State, x *ssa.Convert) {
 		h := fx.heapTerm(st, key, arr2Sort(es), el)
 		s := fx.em.Fresh("conv.str", SStr)
 		if eb, ok := el.Underlying().(*types.Basic); ok && eb.Kind() == types.Uint8 {
-			fx.em.Assert(eq("(str.len "+s+")", "(s.len "+v.S+")"))
-			fx.em.Assert(fmt.Sprintf("(forall ((i Int)) (! (=> (and (<= 0 i) (< i (s.len %s))) (= (str.at %s i) (select (select %s (s.arr %s)) (+ (s.off %s) i)))) :pattern ((str.at %s i))))", v.S, s, h, v.S, v.S, s))
+			fx.em.Assert(eq("(gs.len "+s+")", "(s.len "+v.S+")"))
+			fx.em.Assert(fmt.Sprintf("(forall ((i Int)) (! (=> (and (<= 0 i) (< i (s.len %s))) (= (gs.at %s i) (select (select %s (s.arr %s)) (+ (s.off %s) i)))) :pattern ((gs.at %s i))))", v.S, s, h, v.S, v.S, s))
 		} else {
-			fx.em.Assert(fmt.Sprintf("(>= (str.len %s) (s.len %s))", s, v.S))
-			fx.em.Assert(imp(eq("(s.len "+v.S+")", "0"), eq("(str.len "+s+")", "0")))
+			fx.em.Assert(fmt.Sprintf("(>= (gs.len %s) (s.len %s))", s, v.S))
+			fx.em.Assert(imp(eq("(s.len "+v.S+")", "0"), eq("(gs.len "+s+")", "0")))
 			fx.note("string([]rune): byte length is at least the rune count; contents are not related")
 		}
 		fx.def(x, Val{T: x.Type(), Sort: SStr, S: s})
 	case fs == SInt && ts == SStr:
 		s := fx.em.Fresh("conv.runestr", SStr)
-		fx.em.Assert(and(fmt.Sprintf("(<= 1 (str.len %s))", s), fmt.Sprintf("(<= (str.len %s) 4)", s)))
-		fx.em.Assert(imp(and(fmt.Sprintf("(<= 0 %s)", v.S), fmt.Sprintf("(< %s 128)", v.S)), and(eq("(str.len "+s+")", "1"), eq("(str.at "+s+" 0)", v.S))))
+		fx.em.Assert(and(fmt.Sprintf("(<= 1 (gs.len %s))", s), fmt.Sprintf("(<= (gs.len %s) 4)", s)))
+		fx.em.Assert(imp(and(fmt.Sprintf("(<= 0 %s)", v.S), fmt.Sprintf("(< %s 128)", v.S)), and(eq("(gs.len "+s+")", "1"), eq("(gs.at "+s+" 0)", v.S))))
 		fx.def(x, Val{T: x.Type(), Sort: SStr, S: s})
 	case fs == SSlice && ts == SSlice:
 		fx.def(x, Val{T: x.Type(), Sort: ts, S: v.S})
@@ -1208,15 +1217,15 @@ func (fx *FuncExec) binop(st *State, op token.Token, a, b Val, rt types.Type, em
 	case SStr:
 		switch op {
 		case token.ADD:
-			return Val{T: rt, Sort: SStr, S: fmt.Sprintf("(str.cat %s %s)", a.S, b.S)}
+			return Val{T: rt, Sort: SStr, S: fmt.Sprintf("(gs.cat %s %s)", a.S, b.S)}
 		case token.LSS:
-			return bv(fmt.Sprintf("(str.lt %s %s)", a.S, b.S))
+			return bv(fmt.Sprintf("(gs.lt %s %s)", a.S, b.S))
 		case token.GTR:
-			return bv(fmt.Sprintf("(str.lt %s %s)", b.S, a.S))
+			return bv(fmt.Sprintf("(gs.lt %s %s)", b.S, a.S))
 		case token.LEQ:
-			return bv(not(fmt.Sprintf("(str.lt %s %s)", b.S, a.S)))
+			return bv(not(fmt.Sprintf("(gs.lt %s %s)", b.S, a.S)))
 		case token.GEQ:
-			return bv(not(fmt.Sprintf("(str.lt %s %s)", a.S, b.S)))
+			return bv(not(fmt.Sprintf("(gs.lt %s %s)", a.S, b.S)))
 		}
 	case SF64:
 		f := func(o string) Val { return Val{T: rt, Sort: SF64, S: fmt.Sprintf("(%s RNE %s %s)", o, a.S, b.S)} }
@@ -1351,6 +1360,110 @@ func (fx *FuncExec) finish() {
 		fx.oblige("assert", exit, fx.evalBool(env, e), "lemma assertion: "+e.Text, pos)
 	}
 	if fx.fc.HasMod {
+		before := fx.counts["frame"]
 		fx.checkFrame(exit, env)
+		if fx.counts["frame"] == before {
+			fx.oblige("frame", exit, "true", "no heap location is written on any path (syntactic)", pos)
+		}
 	}
+}
+
+// discoverLoop executes the blocks of the loop once in discard mode and returns what was written.
+func (fx *FuncExec) discoverLoop(li *loopInfo, from *State, targets bool) (map[string]bool, map[string]map[string]bool, map[ssa.Value]bool) {
+	savedW, savedT, savedC := fx.writeLog, fx.writeTargets, fx.cellLog
+	fx.writeLog, fx.cellLog = map[string]bool{}, map[ssa.Value]bool{}
+	fx.writeTargets = nil
+	if targets {
+		fx.writeTargets = map[string]map[string]bool{}
+	}
+	fx.discard++
+	snap := len(fx.em.lines)
+	savedEdges := fx.edgeOut
+	fx.edgeOut = map[[2]int]incoming{}
+	savedOrd := map[string]int{}
+	for k, v := range fx.callOrd {
+		savedOrd[k] = v
+	}
+	su, sl := fx.unlockOrd, fx.lockOrd
+	fx.execBlocks(fx.rpo, li.blocks, li.head, from)
+	fx.unlockOrd, fx.lockOrd = su, sl
+	fx.callOrd = savedOrd
+	fx.edgeOut = savedEdges
+	if !targets {
+		fx.em.lines = fx.em.lines[:snap]
+	}
+	fx.discard--
+	wl, wt, cl := fx.writeLog, fx.writeTargets, fx.cellLog
+	fx.writeLog, fx.writeTargets, fx.cellLog = savedW, savedT, savedC
+	return wl, wt, cl
+}
+
+// havocForLoop builds the state at the loop head: written cells are arbitrary; a written heap is
+// arbitrary except that objects which existed at loop entry and are not among the (stable) written
+// locations keep their value. With stable == nil every written heap is wholly arbitrary.
+func (fx *FuncExec) havocForLoop(li *loopInfo, pre *State, wl map[string]bool, cl map[ssa.Value]bool, stable map[string][]string, n1 int) *State {
+	st := pre.Clone()
+	var havocked []Val
+	var cells []ssa.Value
+	for c := range cl {
+		cells = append(cells, c)
+	}
+	sort.Slice(cells, func(i, j int) bool { return cells[i].Name() < cells[j].Name() })
+	for _, c := range cells {
+		old, ok := pre.cells[c]
+		if !ok {
+			continue
+		}
+		if old.S == "" {
+			delete(st.cells, c)
+			continue
+		}
+		nv := Val{T: old.T, Sort: old.Sort, S: fx.em.Fresh("loop"+li.name+":"+cellName(c), old.Sort)}
+		fx.typeFacts(nv)
+		if a, ok := c.(*ssa.Alloc); ok && a.Comment == "rangeindex" {
+			fx.em.Assert(fmt.Sprintf("(>= %s (- 1))", nv.S))
+		}
+		st.cells[c] = nv
+		havocked = append(havocked, nv)
+	}
+	defer func() {
+		// everything a cell can hold was allocated before now (facts relative to the new watermark)
+		for _, nv := range havocked {
+			fx.refFacts(st, nv)
+		}
+	}()
+	var keys []string
+	for k := range wl {
+		keys = append(keys, k)
+	}
+	sort.Strings(keys)
+	topPre := pre.heaps[topKey]
+	if topPre == "" {
+		topPre = q(topKey)
+	}
+	for _, k := range keys {
+		hi := fx.heapInfos[k]
+		nh := fx.em.FreshRaw("loop"+li.name+":"+k, hi.sortText)
+		if k == topKey {
+			fx.em.Assert(fmt.Sprintf("(>= %s %s)", nh, topPre))
+		}
+		st.heaps[k] = nh
+		if stable == nil || k == topKey || k[0] == 'G' {
+			continue
+		}
+		ts, ok := stable[k]
+		if !ok {
+			continue
+		}
+		h0, ok0 := pre.heaps[k]
+		if !ok0 {
+			h0 = q(k)
+		}
+		conds := []string{"(<= r " + topPre + ")"}
+		for _, t := range ts {
+			conds = append(conds, not(eq("r", t)))
+		}
+		fx.em.Assert(fmt.Sprintf("(forall ((r Int)) (! (=> %s (= (select %s r) (select %s r))) :pattern ((select %s r)) :pattern ((select %s r))))", and(conds...), nh, h0, nh, h0))
+	}
+	return st
 }
